@@ -831,7 +831,9 @@ def rand_c08(seed, tier, cases=None):
 
 prop(dict(
     id="C08", fam="C08",
-    mc=[("PayloaderMC.tla", "PayloaderMC.cfg", {"thorough": {"MaxCalls": "4"}}), ("PayloaderMC.tla", "PayloaderMCAlias.cfg", {}, "expect_violation")],
+    mc=[("PayloaderMC.tla", "PayloaderMC.cfg", {"thorough": {"MaxCalls": "4"}}), ("PayloaderMC.tla", "PayloaderMCAlias.cfg", {}, "expect_violation"),
+        ("OwnershipMC.tla", "OwnershipMC.cfg", {"thorough": {"MaxCalls": "4"}}), ("OwnershipMC.tla", "OwnershipMC_Aliasing.cfg", {}, "expect_violation"),
+        ("OwnershipMC.tla", "OwnershipMC_SharedResults.cfg", {}, "expect_violation"), ("OwnershipMC.tla", "OwnershipMC_GlobalScratch.cfg", {}, "expect_violation")],
     gen=[("PayloaderGen.tla", "PayloaderGen.cfg", {"thorough": {"Stride": "1", "Lens": "{1, 2, 3, 4, 5, 9, 17, 40, 41, 100, 300, 1300, 20000}"}})],
     rand=rand_c08, corpus=corpus_c08,
     trace=("PayloaderTrace.tla", "PayloaderTrace.cfg"),
@@ -884,7 +886,9 @@ def rand_c09(seed, tier, cases=None):
 
 prop(dict(
     id="C09", fam="C09",
-    mc=[("PayloaderMC.tla", "PayloaderMC.cfg", {"thorough": {"MaxCalls": "4"}}), ("PayloaderMC.tla", "PayloaderMCAlias.cfg", {}, "expect_violation")],
+    mc=[("PayloaderMC.tla", "PayloaderMC.cfg", {"thorough": {"MaxCalls": "4"}}), ("PayloaderMC.tla", "PayloaderMCAlias.cfg", {}, "expect_violation"),
+        ("OwnershipMC.tla", "OwnershipMC.cfg", {"thorough": {"MaxCalls": "4"}}), ("OwnershipMC.tla", "OwnershipMC_Aliasing.cfg", {}, "expect_violation"),
+        ("OwnershipMC.tla", "OwnershipMC_SharedResults.cfg", {}, "expect_violation"), ("OwnershipMC.tla", "OwnershipMC_GlobalScratch.cfg", {}, "expect_violation")],
     gen=[("DepacketizerGen.tla", "DepacketizerGen.cfg", {"thorough": {"Stride": "1", "Sweep": "TRUE", "All2": "TRUE",
                                                                         "Alpha3": "{0, 1, 2, 24, 28, 29, 48, 49, 50, 64, 96, 98, 100, 127, 128, 129, 144, 156, 192, 224, 240, 248, 254, 255}"}})],
     rand=rand_c09, corpus=corpus_c09,
